@@ -808,6 +808,7 @@ class Ev:
         self.opaque_calls = set(opaque_calls)  # "Class.method" evaluated to Ctor(name, args) without looking inside
         self.stubs = {}  # "Class.method" -> callable(bound arguments) giving the abstract result
         self.syms = {}  # name -> Sym, for atoms used as dictionary keys
+        self.enum_keys = {}  # (class name, member name) -> EnumMember used as a dictionary key
         self.ids = {}  # python id -> IdV, for id(x) used as dictionary keys
         self.input_reply = None  # what input() answers (Str), when the evaluated code may ask the user
         self.loop_budget = 200
@@ -946,6 +947,7 @@ class Ev:
         if isinstance(v, (int, bool, str)):
             return v
         if isinstance(v, EnumMember):
+            self.enum_keys[(v.cls.name, v.name)] = v
             return (v.cls.name, v.name)
         if isinstance(v, Sym):
             self.syms[v.name] = v
@@ -960,6 +962,8 @@ class Ev:
     def unkey(self, k):
         if isinstance(k, str):
             return Str.lit(k)
+        if isinstance(k, tuple) and k in self.enum_keys:
+            return self.enum_keys[k]
         if isinstance(k, tuple) and len(k) == 2 and k[0] == "sym":
             return self.syms.get(k[1], Frag("key %r" % (k,)))
         if isinstance(k, tuple) and len(k) == 2 and k[0] == "id":
@@ -1359,7 +1363,10 @@ class Ev:
         if isinstance(st, ast.AugAssign):
             cur = self.ev(ast.copy_location(_load(st.target), st.target), env, mod)
             v = self.binop(st.op, cur, self.ev(st.value, env, mod), st)
-            if isinstance(cur, ListV) and isinstance(st.op, ast.Add) and not isinstance(cur, TupV):
+            if isinstance(cur, ListV) and "ndarray" in getattr(cur, "ext_types", ()) and isinstance(v, ListV) and len(v.items) == len(cur.items):
+                cur.items[:] = v.items  # an array is changed in place: every holder of it sees the new numbers
+                v = cur
+            elif isinstance(cur, ListV) and isinstance(st.op, ast.Add) and not isinstance(cur, TupV):
                 cur.items[:] = v.items  # in-place extension keeps aliases
                 v = cur
             self.assign(st.target, v, env, mod)
@@ -1528,6 +1535,15 @@ class Ev:
             if sym is None:
                 raise AnalysisError("numeric operation %s at line %d" % (type(op).__name__, node.lineno))
             return Term(sym, [a, b])
+        nd = lambda x: isinstance(x, ListV) and "ndarray" in getattr(x, "ext_types", ())
+        if isinstance(op, (ast.Add, ast.Sub, ast.Mult, ast.FloorDiv, ast.Mod, ast.Div)) and ((nd(a) and (nd(b) or is_numeric(b))) or (nd(b) and is_numeric(a))) and not any(isinstance(i, bool) for x in (a, b) if nd(x) for i in x.items):
+            # element-wise arithmetic of a modelled array with a number or an array of the same length
+            n = len(a.items) if nd(a) else len(b.items)
+            if nd(a) and nd(b) and len(a.items) != len(b.items):
+                raise _Raise(node, "operands could not be broadcast together", "ValueError")
+            out = ListV([self.binop(op, a.items[i] if nd(a) else a, b.items[i] if nd(b) else b, node) for i in range(n)])
+            out.ext_types = {"ndarray"}
+            return out
         if isinstance(op, (ast.BitAnd, ast.BitOr)) and all(isinstance(x, ListV) and "ndarray" in getattr(x, "ext_types", ()) and all(isinstance(i, bool) for i in x.items) for x in (a, b)) and len(a.items) == len(b.items):
             # element-wise and / or of two boolean arrays
             out = ListV([(x and y) if isinstance(op, ast.BitAnd) else (x or y) for x, y in zip(a.items, b.items)])
@@ -1638,6 +1654,11 @@ class Ev:
                 if self.outside_value(r[1]):
                     # attribute of a value of an uninterpreted pure module: an uninterpreted function of that value
                     return Ctor(".%s" % e.attr, {"of": r[1]}, kind="call")
+                if isinstance(r[1], ListV) and "ndarray" in getattr(r[1], "ext_types", ()) and e.attr == "size":
+                    return len(r[1].items)
+                if isinstance(r[1], (DictV, ListV, Str)):
+                    # a bound method of a container handed on as a value (key=d.get, map(s.strip, ..))
+                    return PyFunc(lambda a, k, recv=r[1], name=e.attr, at=e: self.method(recv, name, list(a), dict(k), at), "%s.%s" % (type(r[1]).__name__, e.attr))
                 raise AnalysisError("attribute .%s of %r at line %d is not modelled" % (e.attr, r[1], e.lineno))
             return r
         if isinstance(e, ast.JoinedStr):
